@@ -28,6 +28,8 @@ struct ProbeFut {
     id: Option<u64>,
     log: Arc<Mutex<Vec<(&'static str, bool, Option<u64>)>>>,
     polls_left: usize,
+    /// panic (payload 4243u32) in the poll that would have returned Ready
+    panics: bool,
 }
 fn who() -> Option<u64> {
     dispatch::get_default(|d| d.downcast_ref::<SharedProto>().map(|s| s.0.cid))
@@ -46,6 +48,9 @@ impl Future for ProbeFut {
     fn poll(mut self: Pin<&mut Self>, _: &mut Context<'_>) -> Poll<u32> {
         self.note("poll");
         if self.polls_left == 0 {
+            if self.panics {
+                std::panic::panic_any(4243u32);
+            }
             Poll::Ready(7)
         } else {
             self.polls_left -= 1;
@@ -65,6 +70,7 @@ impl Clone for ProbeFut {
             id: self.id,
             log: self.log.clone(),
             polls_left: self.polls_left,
+            panics: self.panics,
         }
     }
 }
@@ -220,7 +226,7 @@ impl World {
         let livef: Vec<usize> = (0..self.futs.len()).filter(|&i| self.futs[i].is_some()).collect();
         let has = !live.is_empty();
         let deep = depth >= 3;
-        let w: [u32; 20] = [
+        let w: [u32; 21] = [
             6,                                          // 0 NewMacro
             if self.metas.is_empty() { 0 } else { 4 },  // 1 NewApi
             1,                                          // 2 NewNone
@@ -241,6 +247,7 @@ impl World {
             if livef.is_empty() { 0 } else { 2 },       // 17 DropFut
             if livef.is_empty() { 0 } else { 1 },       // 18 IntoInner
             if livef.is_empty() || livef.len() >= 4 { 0 } else { 1 }, // 19 CloneFut
+            if has { 2 } else { 0 },                    // 20 in_scope / enter guard unwound by a caught panic
         ];
         let op = self.rng.weighted(&w);
         let opid = self.opid;
@@ -534,7 +541,7 @@ impl World {
                 if kind == 3 {
                     let k = self.rng.usize(2);
                     self.trace.push(format!("[{t}] f{} = fut.with_collector({})", self.futs.len(), k + 1));
-                    let f = ProbeFut { owner: None, id: None, log: log.clone(), polls_left: polls }.with_collector(self.disp[k].clone());
+                    let f = ProbeFut { owner: None, id: None, log: log.clone(), polls_left: polls, panics: false }.with_collector(self.disp[k].clone());
                     self.futs.push(Some(FutSlot { f: FutKind::WithC(Box::new(f), k), owner: None, id: None, log, done: false }));
                     self.expect(None, &[]);
                     return;
@@ -558,7 +565,8 @@ impl World {
                     }
                 };
                 self.trace.push(format!("[{t}] f{} = fut.{desc} [{}]", self.futs.len(), if kind == 2 { "tracing-futures" } else { "tracing" }));
-                let probe = ProbeFut { owner: owner.map(|o| self.protos[o].clone()), id, log: log.clone(), polls_left: polls };
+                let panics = self.rng.chance(1, 6);
+                let probe = ProbeFut { owner: owner.map(|o| self.protos[o].clone()), id, log: log.clone(), polls_left: polls, panics };
                 let f = if kind == 2 {
                     FutKind::Tf(Box::new(tracing_futures::Instrument::instrument(probe, span)))
                 } else {
@@ -579,10 +587,23 @@ impl World {
                 let waker = Waker::noop();
                 let mut cx = Context::from_waker(waker);
                 slot.log.lock().unwrap().clear();
-                let r = match &mut slot.f {
+                let r = std::panic::catch_unwind(std::panic::AssertUnwindSafe(|| match &mut slot.f {
                     FutKind::Std(b) => Pin::new(&mut **b).poll(&mut cx),
                     FutKind::Tf(b) => Pin::new(&mut **b).poll(&mut cx),
                     FutKind::WithC(b, _) => Pin::new(&mut **b).poll(&mut cx),
+                }));
+                let r = match r {
+                    Ok(r) => r,
+                    Err(p) => {
+                        // the inner future panicked (on purpose): the span must have been exited
+                        // while unwinding; the future is finished as far as the interpreter goes
+                        if p.downcast_ref::<u32>() != Some(&4243) {
+                            self.err(format!("unexpected panic while polling: {}", vlib::run::panic_msg(&p)));
+                        }
+                        self.stat("polls_that_panicked");
+                        self.trace.push(format!("[{t}]   (the inner future panicked in this poll; caught)"));
+                        Poll::Ready(0)
+                    }
                 };
                 if r.is_ready() { slot.done = true; }
                 let plog = slot.log.lock().unwrap().clone();
@@ -668,6 +689,33 @@ impl World {
                 };
                 // the cloned inner probe keeps the original id for its "entered" test (same base span)
                 self.futs.push(Some(FutSlot { f: nf, owner, id: nid, log, done }));
+            }
+            20 => {
+                let h = *self.rng.pick(&live);
+                let x = self.handles[h].take().unwrap();
+                let (owner, id) = (x.owner, x.id);
+                let via_guard = self.rng.bool();
+                self.trace.push(format!("[{t}] catch_unwind(h{h}.{} {{ panic }})", if via_guard { "enter()" } else { "in_scope" }));
+                self.sig(if via_guard { "enter_unwound" } else { "in_scope_unwound" }, owner, id.is_some(), depth);
+                let r = std::panic::catch_unwind(std::panic::AssertUnwindSafe(|| {
+                    if via_guard {
+                        let _g = x.span.enter();
+                        std::panic::panic_any(4244u32);
+                    } else {
+                        x.span.in_scope(|| std::panic::panic_any(4244u32))
+                    }
+                }));
+                match r {
+                    Err(p) if p.downcast_ref::<u32>() == Some(&4244) => {}
+                    Err(p) => self.err(format!("unexpected panic payload: {}", vlib::run::panic_msg(&p))),
+                    Ok(()) => self.err("the panic inside the span scope was swallowed".into()),
+                }
+                // the enter must be matched by an exit on this thread although the scope unwound
+                match (owner, id) {
+                    (Some(_), Some(id)) => { self.expect(owner, &[Call::Enter { id }, Call::Exit { id }]); self.stat("scopes_unwound_by_a_panic"); }
+                    _ => { self.expect(None, &[]); }
+                }
+                self.handles[h] = Some(x);
             }
             _ => unreachable!(),
         }
